@@ -46,7 +46,7 @@ ENGINE_TEXT = {
  "E2-forkdfs": ("harness/kv-engine/src/forkdfs.rs", "explicit-state depth-first search over operation sequences; every state is a fork()ed copy of a process holding the real server on an in-memory database; depth-aware visited table in shared memory"),
  "E3-sched": ("harness/kv-core/src/checks/c06.rs", "stateless exploration of schedules of real code: threads stopped at named points by a controller (preemption-bounded, C06), or tasks of a single-threaded executor whose yield points are enumerated (delay-bounded, C47)"),
  "E4-fault": ("harness/kv-core/src/checks/c04.rs", "enumeration of every hit of every named storage point as an injected error (C04) or as the point at which the process dies (C05), each case on its own copy of a database file"),
- "E5-peer": ("harness/kv-core/src/checks/c43.rs", "enumeration of every scripted reply sequence of the peer the subject talks to, over a real socket pair"),
+ "E5-peer": ("harness/kv-core/src/checks/c43.rs, harness/kv-core/src/edge.rs", "enumeration of every scripted reply / operation sequence of the peer the subject talks to, over a real socket pair (C43) or a real TCP connection to a scripted HTTP identity server (C44, C45)"),
  "E6-model": ("harness/kv-core/src/checks", "explicit-state BFS of a small model that calls the real pure function, plus replay of every model trace against the real server"),
 }
 manifest = {
